@@ -104,7 +104,8 @@ func zzBuildState(o zzStateOpts) *zzState {
 		{Id: 1, Denom: "hub", ChainId: st.chain.String(), ExternalTokenId: st.idA, ExternalDecimals: dA, Commission: sdk.NewDecWithPrec(1, 2)},
 		{Id: 2, Denom: "usdt", ChainId: st.chain.String(), ExternalTokenId: st.idB, ExternalDecimals: dB, Commission: sdk.NewDecWithPrec(1, 2)},
 		{Id: 3, Denom: "hub", ChainId: other.String(), ExternalTokenId: otherA, ExternalDecimals: 18, Commission: sdk.NewDecWithPrec(1, 2)},
-		{Id: 4, Denom: "usdt", ChainId: other.String(), ExternalTokenId: otherB, ExternalDecimals: 6, Commission: sdk.NewDecWithPrec(1, 2)},
+		// the second token has different decimals on the two chains (6 here, 18 there): cross-chain conversions are visible
+		{Id: 4, Denom: "usdt", ChainId: other.String(), ExternalTokenId: otherB, ExternalDecimals: 18, Commission: sdk.NewDecWithPrec(1, 2)},
 	}})
 
 	var all []*types.SendToExternal
